@@ -82,6 +82,15 @@ pub fn hop_invariant(amp: u64, decimals: &[u8], before: &[u128], after: &[u128],
     }
 }
 
+/// value of one smallest unit of asset i in smallest units of asset j at the margin of the
+/// given state (upper estimate: half of the exact output of a 2-unit offer, rounded up)
+pub fn marginal_price(amp: u64, decimals: &[u8], reserves: &[u128], i: usize, j: usize) -> f64 {
+    let st0 = SsState::new(amp, reserves, decimals, EXTRA);
+    let d0 = st0.d_floor();
+    let b = band(&st0, &d0, i, j);
+    (b.units.saturating_sub(2)) as f64 / 2.0
+}
+
 /// floor(exact D) in normalised (max-decimals) smallest units, no guard digits
 pub fn d_units(amp: u64, decimals: &[u8], reserves: &[u128]) -> BigInt {
     SsState::new(amp, reserves, decimals, 0).d_floor()
